@@ -83,7 +83,11 @@ fn path_of(zone: usize, variant: usize) -> String {
     }
 }
 fn rel_path_of(zone: usize, variant: usize) -> String {
-    // relative paths are resolved against the configuration file's directory
+    // relative paths are resolved against the configuration file's directory; some zones are
+    // configured with an absolute path instead
+    if (zone + variant) % 3 == 2 {
+        return path_of(zone, variant);
+    }
     if variant == 0 {
         format!("z{zone}.zone")
     } else {
